@@ -139,3 +139,71 @@ func VerifHarness_C18_teardown_during_slow_dial() {
 	vAssert(vArmedTimers() == 0, "C15.no_timer_left_armed")
 	vReach("end")
 }
+
+// Scripted interleaving: OnAllocationCreated is slow, and the new allocation's lifetime ends (or the manager is
+// closed) while that callback is still running. Afterwards the allocation is either gone - relay socket closed,
+// deleted event delivered - or still registered with an armed lifetime timer; never registered for ever.
+//
+//verif:props=C15,C18,C06 replay=model unwind=20 bounds="one CreateAllocation (UDP) whose created-callback blocks; meanwhile its lifetime timer fires / DeleteAllocation / Manager.Close in a second goroutine; then the callback returns and the relay goroutine runs"
+func VerifHarness_C15_teardown_during_slow_created_callback() {
+	env := VNewManager(false, false)
+	env.IdleRelays = true // an open relay socket just stays silent: only a teardown ends its goroutine
+	m := env.M
+	gate := make(chan struct{})
+	created := 0
+	m.EventHandler.OnAllocationCreated = func(src, dst net.Addr, protocol, userID, realm string, relay net.Addr, port int) {
+		created++
+		env.Ev.AllocCreated++
+		<-gate
+	}
+	ft := VFiveTuple()
+	var a *Allocation
+	var err error
+	reqDone := false
+	first := vSpawnCount()
+	go func() {
+		a, err = m.CreateAllocation(ft, &VPacketConn{Name: "turn"}, proto.ProtoUDP, 0, 600*time.Second, "user", "realm", proto.RequestedFamilyIPv4)
+		reqDone = true
+	}()
+	vRunSpawn(first)
+	vAssume(created == 1) // inside the callback
+	vAssert(!reqDone, "C18.cover_create_is_inside_its_callback")
+	how := vPick(0, 2)
+	tornDown := false
+	tm := vLastTimer() // the new allocation's lifetime timer (the only timer so far)
+	go func() {
+		switch how {
+		case 0:
+			vFire(tm)
+		case 1:
+			m.DeleteAllocation(ft)
+		case 2:
+			_ = m.Close()
+		}
+		tornDown = true
+	}()
+	vRunSpawn(vSpawnCount() - 1)
+	close(gate)
+	vYield()
+	for i := 0; i < vSpawnCount(); i++ { // the relay goroutine notices its closed socket
+		if !vSpawnStarted(i) {
+			vRunSpawn(i)
+		}
+	}
+	vYield()
+	vAssert(reqDone && tornDown, "C18.both_goroutines_finish")
+	vAssume(err == nil)
+	live := m.GetAllocation(ft)
+	if live != nil {
+		vAssert(vTimerArmed(live.lifetimeTimer), "C15.a_registered_allocation_always_has_an_armed_lifetime_timer")
+		vAssert(vTimerArmed(live.lifetimeTimer), "C06.a_registered_allocation_always_has_an_armed_lifetime_timer")
+	} else {
+		vAssert(env.Relays[0].Closed == 1, "C15.relay_socket_closed_exactly_once")
+		vAssert(env.Ev.AllocDeleted == 1, "C15.created_and_deleted_events_pair_up")
+		vAssert(vArmedTimers() == 0, "C15.no_timer_left_armed")
+	}
+	vAssert(vBlockedThreads() == 0, "C18.nobody_left_blocked")
+	vAssert(vLocksHeld() == 0, "C18.no_lock_left_held")
+	_ = a
+	vReach("end")
+}
